@@ -51,7 +51,12 @@ def dec_name(j):
     if "s" in j:
         return j["s"]
     p, u, l = j["q"]
+    if _CUR[0] is not None:
+        return _CUR[0].qname(p, u, l)
     return QualifiedName(Namespace(p, u), l)
+
+
+_CUR = [None]      # the world being replayed (names are made the way that world's caller made them)
 
 
 def dec_value(w, j):
@@ -87,9 +92,11 @@ def dec_attrs(w, js):
     return [(dec_name(a["n"]), dec_value(w, a["v"])) for a in js]
 
 
-def replay_ops(ops):
-    """handles in the recorded ops are reused: the World allocates them in the same order"""
-    w = World()
+def replay_ops(ops, w=None):
+    """handles in the recorded ops are reused: the World allocates them in the same order; with `w`, the ops continue that world"""
+    if w is None:
+        w = World(own_ns=bool(ops and ops[0].get("op") == "reset" and ops[0].get("own_ns")))
+    _CUR[0] = w
     for op in ops:
         o = op["op"]
         if o == "reset":
